@@ -823,13 +823,15 @@ func runC08(run *Run, replay string) Spec {
 		Rule: "random dependency DAGs (1-11 fetches, non-contiguous ids, edge density 0-0.6, dependencies on ids outside the tree, exact duplicates, random presentation order) through postprocess.Processor.Process " +
 			"with {legacy waves, scheduler} x {dedupe on, off}; every produced tree is (a) judged by an independent Go before-set oracle, (b) fed to the proved Lean checker validate, (c) for the legacy path compared with the Lean model of " +
 			"orderSequenceByDependencies+createParallelNodes; a subset is executed on the real Resolver/Loader with gated fake data sources whose requests carry their dependencies' values, several random completion orders each. " +
+			"a further stream lets a third of the requests of layered DAGs fail at the transport level and holds the requests of every wave at a spin barrier, so that their completions run in the same instant on several cores, repeated; " +
+			"no request that reads from a failed or skipped one may be issued, every other exactly once, and the response (data; errors as a multiset) must be the one of the one-at-a-time run. " +
 			"non-trivial = at least 2 fetches and 1 edge; distinct = distinct (fetch list, options)",
 		TrustedBase: []string{"Lean 4 kernel", "axioms: propext, Classical.choice, Quot.sound only (audited)",
 			"Lean model GqlVerif.Plan.Sched: binary-nested fetch trees, happens-before semantics of Sequence/Parallel/Single, validate = mirror of validateSchedule",
 			"the happens-before semantics is the reading of resolveSerial/resolveParallel/resolveSingle (checked by regenerated call skeletons and by the gated loader runs: a fetch that starts when the tree does not allow it is reported)",
 			"Go harness vh (DAG generator, effective-dependency computation after de-duplication, gate controller)"},
 		Assumptions: []string{"fetch ids are unique in a plan", "the dependency relation handed to the checker is the generated one (after the documented de-duplication rewiring), not the one stored in the produced tree",
-			"real goroutine interleavings below the prepare/load/merge granularity are not explored (the loader's data lock is trusted)"},
+			"real goroutine interleavings below the prepare/load/merge granularity are not enumerated: the failing-requests stream samples them (completions released in the same instant, repeated), it does not exhaust them"},
 	}
 	if replay != "" {
 		b, err := os.ReadFile(replay)
@@ -842,7 +844,16 @@ func runC08(run *Run, replay string) Spec {
 					} `json:"input"`
 				} `json:"violation"`
 			}
-			if json.Unmarshal(b, &f) == nil {
+			var ff struct {
+				Violation struct {
+					Input c08FailCase `json:"input"`
+				} `json:"violation"`
+			}
+			if json.Unmarshal(b, &ff) == nil && ff.Violation.Input.Stream == "failing_requests" {
+				c := ff.Violation.Input
+				c.Reps = max(c.Reps, 2000) // the failure needs two completions in the same instant: repeat
+				c08CheckFail(run, c)
+			} else if json.Unmarshal(b, &f) == nil {
 				c08CheckOrganiser(run, f.Violation.Input.Fetches, f.Violation.Input.Options)
 				c08CheckLoader(run, f.Violation.Input.Fetches, f.Violation.Input.Options, rand.New(rand.NewSource(run.Seed)), 4)
 			}
@@ -891,6 +902,19 @@ func runC08(run *Run, replay string) Spec {
 			return
 		}
 		c08CheckLoader(run, fs, allOpts[r.Intn(4)], r, 3)
+	})
+	// failing requests, the requests of a wave completing in the same instant (see c08fail.go)
+	nFail, reps := 150, 25
+	if run.Tier == "thorough" {
+		nFail, reps = 4000, 60
+	}
+	parallelFor(nFail, 2, func(i int) {
+		if run.NViolations() >= 20 {
+			return
+		}
+		c := c08GenFailCase(subRng(run.Seed+13, i))
+		c.Reps = reps
+		c08CheckFail(run, c)
 	})
 	return spec
 }
